@@ -297,7 +297,16 @@ class StmtMixin(object):
                 and ast.unparse(test.args[1]) in ("six.string_types", "six.text_type", "str"):
             v = st.env.get(test.args[0].id)
             if v is not None and v is not POISON and v.z is not None and v.kind is None:
-                st.env[test.args[0].id] = SV(v.z, "str")
+                self.retype_aliases(st, v, lambda z: SV(z, "str"))
+            return
+        if positive and isinstance(test, ast.Call) and isinstance(test.func, ast.Name) \
+                and test.func.id == "isinstance" and len(test.args) == 2 and isinstance(test.args[0], ast.Name) \
+                and ast.unparse(test.args[1]) in ("(list, tuple)", "(tuple, list)", "list", "tuple"):
+            # a sequence object: iteration / len / indexing read the sequence arrays (same for list and tuple)
+            v = st.env.get(test.args[0].id)
+            if v is not None and v is not POISON and v.z is not None and v.kind is None and v.cls is None:
+                cls = "tuple" if ast.unparse(test.args[1]) == "tuple" else "list"
+                self.retype_aliases(st, v, lambda z: SV(z, "ref", cls=cls))
             return
         if positive and isinstance(test, ast.Call) and isinstance(test.func, ast.Name) \
                 and test.func.id == "isinstance" and len(test.args) == 2 \
@@ -317,6 +326,13 @@ class StmtMixin(object):
             if v is not None and v is not POISON and v.z is not None and v.kind is None and not is_none_branch \
                     and v.extra and v.extra[0] == "opt" and v.extra[1]:
                 st.env[name] = self.typed(v.z, v.extra[1])
+
+    def retype_aliases(self, st, v, mk):
+        """Give every untyped local that holds the very same term as v the refined static type."""
+        for name, w in list(st.env.items()):
+            if w is not None and w is not POISON and getattr(w, "z", None) is not None and w.kind is None \
+                    and w.cls is None and w.z.eq(v.z):
+                st.env[name] = mk(w.z)
 
     def s_Return(self, node, st, acc):
         if node.value is None:
@@ -1307,6 +1323,11 @@ class StmtMixin(object):
         st, v = self.eval(node.args[0], st, acc)
         t = ast.literal_eval(node.args[1])
         return st, self.mk_bool(self.type_pred(self.box(st, v).z, t))
+
+    def spec_as_str(self, node, st, acc):
+        """as_str(v): v read as a string (meaningful where has_kind(v, 'str'))"""
+        st, v = self.eval(node.args[0], st, acc)
+        return st, SV(self.box(st, v).z, "str")
 
     def spec_as_tuple(self, node, st, acc):
         st, v = self.eval(node.args[0], st, acc)
